@@ -4,6 +4,7 @@ use std::collections::HashMap;
 
 mod adj;
 mod search;
+mod serde_io;
 
 fn main() {
     guard::init();
@@ -31,6 +32,9 @@ fn main() {
         "record-search" => search::record(&opts),
         "compare-table" => search::compare_table(&opts),
         "replay-scc" => search::replay_scc(&opts),
+        "record-serde" => serde_io::record_serde(&opts),
+        "replay-untrusted" => serde_io::replay_untrusted(&opts),
+        "record-untrusted" => serde_io::record_untrusted(&opts),
         "record-scc" => search::record_scc(&opts),
         other => {
             eprintln!("unknown command {}", other);
